@@ -103,27 +103,33 @@ bool PortManager::GenericPatchPort(PortClass *port,
     }
   }
 
-  // unpatch if required
+  Universe *new_universe = m_universe_store->GetUniverseOrCreate(
+      new_universe_id);
+  if (!new_universe)
+    return false;
+
+  // Ask the port first: if the plugin vetoes the new universe the port must
+  // stay patched to (and listed by) the universe it was on.
+  if (!port->SetUniverse(new_universe)) {
+    OLA_INFO << "Port " << port->UniqueId() << " refused universe " <<
+      new_universe_id;
+    if (!new_universe->IsActive())
+      m_universe_store->AddUniverseGarbageCollection(new_universe);
+    return false;
+  }
+
+  // unpatch from the old universe if required
   if (universe) {
-    OLA_DEBUG << "Port " << port->UniqueId() << " is bound to universe " <<
+    OLA_DEBUG << "Port " << port->UniqueId() << " was bound to universe " <<
       universe->UniverseId();
     m_broker->RemovePort(port);
     universe->RemovePort(port);
   }
 
-  universe = m_universe_store->GetUniverseOrCreate(new_universe_id);
-  if (!universe)
-    return false;
-
-  if (port->SetUniverse(universe)) {
-    OLA_INFO << "Patched " << port->UniqueId() << " to universe " <<
-      universe->UniverseId();
-    m_broker->AddPort(port);
-    universe->AddPort(port);
-  } else {
-    if (!universe->IsActive())
-      m_universe_store->AddUniverseGarbageCollection(universe);
-  }
+  OLA_INFO << "Patched " << port->UniqueId() << " to universe " <<
+    new_universe->UniverseId();
+  m_broker->AddPort(port);
+  new_universe->AddPort(port);
   return true;
 }
 
